@@ -103,4 +103,41 @@ Export(r) ==
   ELSE [lit |-> r.lit, den |-> r.den, minbin |-> r.minbin, verilog |-> r.verilog, str |-> r.str,
         nbits |-> SetToSeq({[n |-> n, ok |-> r.nbits[n].ok, bits |-> r.nbits[n].bits] : n \in DOMAIN r.nbits})]
 ASSUME ndJsonSerialize(IOEnv.ROWS, SetToSeq({Export(r) : r \in Rows}))
+
+\* ---- widths beyond TLC's integers ---------------------------------------------------------------
+\* The same laws on numbers written as bit sequences (most significant first): a sized literal is
+\* accepted iff its significant bits fit the stated width, the width is the stated one and the binary
+\* exports are the bits padded to it.  The harness writes the digits of each row in the notation's
+\* base with arbitrary-precision arithmetic.
+WideSizes == {31, 32, 33, 40, 48, 56, 63, 64}
+Ones(n) == [i \in 1 .. n |-> 1]
+Zeros(n) == [i \in 1 .. n |-> 0]
+RECURSIVE Strip(_)
+Strip(b) == IF Len(b) <= 1 \/ b[1] = 1 THEN b ELSE Strip(Tail(b))
+\* the values 2^s - 1, 2^(s-1), 2^(s-1) + 1, 1 (fit) and 2^s, 2^s + 1, 2^(s+1) - 1 (do not fit)
+WideBits(sz) == {Ones(sz), <<1>> \o Zeros(sz - 1), <<1>> \o Zeros(sz - 2) \o <<1>>, <<1>>,
+                 <<1>> \o Zeros(sz), <<1>> \o Zeros(sz - 1) \o <<1>>, Ones(sz + 1)}
+WideDen(nt, sz, b) ==
+  LET sig == Len(Strip(b))
+  IN  CASE nt \in {"0uS", "0dS"} -> [ok |-> sig <= sz, width |-> sz, type |-> "unsigned"]
+        [] nt = "0bS" -> [ok |-> Len(b) <= sz, width |-> sz, type |-> "bin"]
+        [] nt = "0xS" -> [ok |-> sz % 8 = 0 /\ 8 * ((((Len(b) + 3) \div 4) + 1) \div 2) <= sz, width |-> sz, type |-> "hex"]
+WideRow(nt, sz, b) == [nt |-> nt, size |-> sz, bits |-> b, den |-> WideDen(nt, sz, b),
+                       padded |-> IF Len(Strip(b)) <= sz THEN Zeros(sz - Len(Strip(b))) \o Strip(b) ELSE <<>>]
+WideRows == UNION {{WideRow(nt, sz, b) : nt \in {"0uS", "0dS", "0bS", "0xS"}, b \in WideBits(sz)} : sz \in WideSizes}
+\* a value that fits is exported on exactly the stated number of bits
+WideWidthLaw == \A w \in WideRows : (w.den.ok /\ w.nt # "0xS") => Len(w.padded) = w.size
+ASSUME WideWidthLaw
+
+\* ---- the linear quantiser ---------------------------------------------------------------------
+\* 0lq<s.t>x with range t = [-Max, Max) cut into 2^s bands: x denotes the number of its band as an
+\* s-bit two's complement pattern (band k covers k * Max / 2^(s-1)).  Rows [size, band, bits]; the
+\* harness writes x for Max = 8.
+LQSizes == {2, 3, 7, 8, 9, 15, 16, 17, 24}
+LQBands(sz) == {0, 1, -1, Pow2(sz - 1) - 1, -(Pow2(sz - 1) - 1), Pow2(sz - 2), -Pow2(sz - 2), 3 % Pow2(sz - 1), -(3 % Pow2(sz - 1))}
+TwoC(k, sz) == ToBits(IF k >= 0 THEN k ELSE Pow2(sz) + k, sz)
+LQRows == UNION {{[size |-> sz, band |-> k, bits |-> TwoC(k, sz)] : k \in LQBands(sz)} : sz \in LQSizes}
+ASSUME \A q \in LQRows : Len(q.bits) = q.size
+ASSUME ndJsonSerialize(IOEnv.LQROWS, SetToSeq(LQRows))
+ASSUME ndJsonSerialize(IOEnv.WIDEROWS, SetToSeq(WideRows))
 =============================================================================
